@@ -5,15 +5,28 @@ import json, glob, os, re, subprocess
 V='/verif'
 kf=json.load(open(f'{V}/known-findings.json'))
 out=[]
-out.append('### 10.1 Defects repaired in /repo (`fix:` commits)\n')
+ck=json.load(open(f'{V}/tools/checks.json'))
+man=json.load(open(f'{V}/MANIFEST.json'))
+lvl={c['property_id']:c.get('level_claimed','') for c in man['checks']}
+out.append('### 12.0 Per-property status (as built)\n')
+out.append('| id | status | what the check does (from MANIFEST level text) |\n|---|---|---|')
+for i in range(1,45):
+    pid=f'C{i:02d}'
+    if pid in ck:
+        out.append(f"| {pid} | claimed ({lvl.get(pid,'')}) | {ck[pid]['text']} |")
+    else:
+        na=[n for n in man['not_applicable'] if n['property_id']==pid]
+        out.append(f"| {pid} | not claimed | {na[0]['reason'] if na else ''} |")
+out.append('')
+out.append('### 12.1 Defects repaired in /repo (`fix:` commits)\n')
 out.append('Each line is the `fixed:` record from `known-findings.json` (property, commit, what failed, and the violation class/signature the check reported before the repair). A fixed entry suppresses nothing.\n')
 for f in kf['fixed']:
     out.append('- '+f[len('fixed: '):] if f.startswith('fixed: ') else '- '+f)
-out.append('\n### 10.2 Known findings (genuine defects recorded, not repaired)\n')
+out.append('\n### 12.2 Known findings (genuine defects recorded, not repaired)\n')
 out.append('| property | violation class | signature (regexp) | what fails |\n|---|---|---|---|')
 for f in kf['findings']:
     out.append(f"| {f['property']} | {f['class']} | `{f['sig']}` | {f['what']} |")
-out.append('\n### 10.3 Seeded changes (sub-agent mutation waves) and which check catches them\n')
+out.append('\n### 12.3 Seeded changes (sub-agent mutation waves) and which check catches them\n')
 out.append('Every change below was written by a fresh sub-agent that saw only the property text and a scratch worktree; it compiles and passes the existing tests. `patch.diff`, the agent\'s demo and `meta.json` are under `/verif/seeded/<case>/`.\n')
 out.append('| case | files touched | detected | note |\n|---|---|---|---|')
 for d in sorted(glob.glob(f'{V}/seeded/*/meta.json')):
